@@ -13,11 +13,16 @@ FORBIDDEN = re.compile(
     r"|Unset\s+Guard|bypass_check|type-in-type|impredicative-set|Unset\s+Universe\s+Checking|Unset\s+Positivity"
 )
 # stdlib axioms that may appear (none is expected; anything listed is reported in the evidence)
-ALLOWED_AXIOMS = {
-    "functional_extensionality_dep",
-    "Coq.Logic.FunctionalExtensionality.functional_extensionality_dep",
+ALLOWED_AXIOMS = set()
+# theorems about IEEE binary64 arithmetic are proved with Flocq over the standard library's reals: exactly
+# these standard-library axioms are allowed, for exactly these theorems (DESIGN.md section 6)
+REALS_AXIOMS = {
+    "ClassicalDedekindReals.sig_forall_dec",
+    "ClassicalDedekindReals.sig_not_dec",
     "FunctionalExtensionality.functional_extensionality_dep",
+    "Classical_Prop.classic",
 }
+ALLOWED_PER_THEOREM = {"float_ceil_division_exact": REALS_AXIOMS}
 
 
 def strip_comments(text):
@@ -63,7 +68,7 @@ def translate(units=None):
         return {"_translator": "crashed: " + r.stderr[-300:]}
     status = json.loads(r.stdout.strip().splitlines()[-1])
     # CLI table / worker skeleton extractors
-    for extra in ("cli2coq.py", "workers2coq.py", "proto2coq.py"):
+    for extra in ("cli2coq.py", "workers2coq.py", "proto2coq.py", "buf2coq.py"):
         p = os.path.join(VERIF, "translator", extra)
         if os.path.exists(p):
             r2 = run([PY, p, os.path.join(COQ, "Gen")])
@@ -160,8 +165,9 @@ def audit(module, names):
                     out[cur] = "closed"
                 elif s.startswith("Axioms:") or not s:
                     continue
-                elif out[cur] != "closed" and re.match(r"^[\w.]+\s*:", s):
-                    out[cur].append(s.split(":")[0].strip())
+                elif out[cur] != "closed" and not line.startswith((" ", "\t")) and re.match(r"^[\w.']+", line):
+                    # an axiom: its name starts in column 0 (the type may follow on indented lines)
+                    out[cur].append(re.match(r"^[\w.']+", line).group(0))
         return out, r.stdout
 
 
@@ -200,7 +206,7 @@ def build_property(pid, cfg, thorough=False):
         for n in names:
             a = out.get(n)
             res["assumptions"][n] = a
-            if a == "closed" or (isinstance(a, list) and a and all(x in ALLOWED_AXIOMS for x in a)):
+            if a == "closed" or (isinstance(a, list) and a and all(x in (ALLOWED_AXIOMS | ALLOWED_PER_THEOREM.get(n, set())) for x in a)):
                 res["discharged"].append(f"{f}:{n}")
             else:
                 res["reasons"].append(f"theorem {n} depends on unexpected assumptions: {a}")
